@@ -409,6 +409,89 @@ def average_oracle(rep: Report, rng, n_traj: int, steps: int):
                  {"kind": kind, "rate": g, "trajectories": n_traj, "steps": steps})
 
 
+# ------------------------------------------------------------------ observables see the normalised state
+def _norm_probe_cls():
+    from pulser.backend.observable import Observable
+
+    class NormProbe(Observable):
+        """records <psi|psi> and the per-site occupations of the state handed to the observables"""
+
+        @property
+        def _base_tag(self) -> str:
+            return "normprobe"
+
+        def apply(self, *, config, state, hamiltonian=None, **kw):
+            import torch
+            from emu_mps.custom_callback_implementations import qubit_occupation_mps_impl
+            from pulser.backend import Occupation
+            n2 = float(torch.as_tensor(state.norm()).real) ** 2
+            occ = qubit_occupation_mps_impl(Occupation(evaluation_times=[1.0]), config=config, state=state, hamiltonian=hamiltonian)
+            return [n2] + [float(x) for x in torch.as_tensor(occ).real.tolist()]
+
+    return NormProbe
+
+
+def normalised_state_oracle(rep: Report, rng, n_cases: int):
+    """Noisy emu-mps trajectories (norm < 1 between jumps) with and without badly prepared (dark) atoms:
+    at every evaluation time the state handed to the observables has <psi|psi> = 1 (1e-9), the reported
+    occupation is the one of the normalised state, dark atoms report 0, everything lies in [0, 1]."""
+    import torch
+    from harness import compat
+    from pulser.backend import Occupation
+    Probe = _norm_probe_cls()
+    thorough = n_cases > 20
+    for c in range(n_cases):
+        n = rng.choice([3, 4]) if thorough else 3
+        bad = [False] * n
+        # 1, 1, 0, 1, … dark atoms (2 of 4 sometimes in the thorough tier): always >= 2 well prepared
+        n_bad = (2 if (n == 4 and c % 5 == 4) else (0 if c % 4 == 2 else 1))
+        for q in rng.sample(range(n), n_bad):
+            bad[q] = True
+        g = rng.uniform(0.2, 1.0)
+        kind = rng.choice(["relaxation", "dephasing", "both"])
+        ops = []
+        if kind in ("relaxation", "both"):
+            L = torch.zeros(2, 2, dtype=torch.complex128); L[0, 1] = math.sqrt(g); ops.append(L)
+        if kind in ("dephasing", "both"):
+            L = torch.zeros(2, 2, dtype=torch.complex128); L[0, 0], L[1, 1] = math.sqrt(g / 2), -math.sqrt(g / 2); ops.append(L)
+        steps, dt = (4, 10.0) if thorough else (3, 10.0)
+        times = [(k + 1) / steps for k in range(steps)]
+        T = [dt * k for k in range(steps + 1)]
+        U = np.zeros((n, n))
+        for i in range(n):
+            for j in range(i + 1, n):
+                U[i, j] = U[j, i] = rng.uniform(0.2, 2.0)
+        om = np.full((steps, n), rng.uniform(4, 9)); de = np.full((steps, n), rng.uniform(-1, 1)); ph = np.zeros((steps, n))
+        s = rng.randrange(10 ** 9)
+        random.seed(s); torch.manual_seed(s)
+        data = dict(seed=s, n=n, bad_atoms=bad, kind=kind, rate=g, omega=float(om[0, 0]), delta=float(de[0, 0]), U=U.tolist())
+        d = compat.make_sequence_data(om, de, ph, U, T, lindblad_ops=ops, bad_atoms=bad, state_prep_error=0.3 if n_bad else 0.0)
+        cfg = compat.mps_config(observables=[Occupation(evaluation_times=times), Probe(evaluation_times=times)],
+                                optimize_qubit_ordering=False)
+        try:
+            r = compat.run_mps(d, cfg)
+        except Exception as e:  # noqa: BLE001
+            rep.fail(f"noisy trajectory with bad atoms {bad} raised {type(e).__name__}: {e}", data)
+            continue
+        rep.hist("normprobe_dark_atoms", n_bad)
+        rep.case(key=("normprobe", s), sample={"normprobe": {"bad_atoms": bad, "kind": kind}})
+        for k, t in enumerate(times):
+            pr = r.get_result("normprobe", t)
+            occ = np.array(torch.as_tensor(r.get_result("occupation", t)).real.tolist())
+            n2, pocc = pr[0], np.array(pr[1:])
+            if abs(n2 - 1.0) > 1e-9:
+                rep.fail(f"state handed to the observables at t={t} has <psi|psi> = {n2!r} (dark atoms {bad}, {kind} noise)",
+                         dict(data, t=t, norm2=n2, occupation=occ.tolist()))
+                break
+            if np.any(np.abs(occ - pocc / n2) > 1e-9) or np.any(occ < -1e-9) or np.any(occ > 1 + 1e-9):
+                rep.fail(f"occupation reported at t={t} {occ.tolist()} is not that of the normalised state {(pocc / n2).tolist()}",
+                         dict(data, t=t, norm2=n2))
+                break
+            if any(abs(occ[q]) > 1e-12 for q in range(n) if bad[q]):
+                rep.fail(f"badly prepared atom reports a non-zero occupation at t={t}: {occ.tolist()} (bad {bad})", dict(data, t=t))
+                break
+
+
 # ------------------------------------------------------------------ check
 def check(rep: Report, tier: str, seed: int) -> None:
     rep.rule = ("(a) random lists of 0-6 dyadic complex 2x2/3x3 jump operators: noise term and aggregated operators, exact; "
@@ -430,6 +513,7 @@ def check(rep: Report, tier: str, seed: int) -> None:
     jump_tape(rep, rng, 8 if q else 200, drv)
     drift_oracle(rep, rng, 2 if q else 60)
     average_oracle(rep, rng, 12 if q else 240, 3 if q else 8)
+    normalised_state_oracle(rep, rng, 8 if q else 120)
     if rep.broken and not rep.failing:
         # deeper search on the real code only
         jump_tape(rep, rng, 60 if q else 600, drv)
